@@ -198,7 +198,7 @@ C["C17"]["harnesses"] += [
 ]
 
 C["C13"]["harnesses"] += [
-    H("ZZMetadataAdopt", "torrent", "magnet torrent, two peers offering ut_metadata (2 blocks); every sequence of 4 metadata messages from either peer - data with piece index 0..2, arbitrary content, length full block / last block / wrong, or reject; duplicates included - : metadata is adopted only if its SHA-1 (uninterpreted function: both outcomes explored for any content) equals the link's info-hash; the adopted bytes are not modified by later messages; no metadata download stays registered after adoption; parse failure stops cleanly", T(40, 1800, 6, 6, flags=["-nospawn"]), T(40, 1800, 6, 6, flags=["-nospawn"]), replay="model"),
+    H("ZZMetadataAdopt", "torrent", "magnet torrent, two peers offering ut_metadata (2 blocks); every sequence of 4 metadata messages from either peer - data with piece index 0..2, arbitrary content, length full block / last block / wrong, or reject; duplicates included - : metadata is adopted only if its SHA-1 (uninterpreted function: both outcomes explored for any content) equals the link's info-hash; the adopted bytes are not modified by later messages; no metadata download stays registered after adoption; parse failure stops cleanly; metadata of a private torrent is refused and not kept", T(40, 1800, 6, 6, flags=["-nospawn"]), T(40, 1800, 6, 6, flags=["-nospawn"]), replay="model"),
     H("ZZMetadataAdopt5", "torrent", "5 messages", None, T(40, 7000, 32, 8, flags=["-nospawn"]), replay="model"),
 ]
 C["C01"]["harnesses"] += [h for h in C["C05"]["harnesses"] if h["fn"] == "ZZCrashOrder"]
@@ -238,6 +238,12 @@ WS3 = H("ZZPickerWebseed3", "torrent", "downloading 3-piece torrent with 2 web-s
 C["C09"]["harnesses"] += [WS3, H("ZZPickerWebseed4", "torrent", "4 events", None, T(40, 7000, 32, 8, flags=["-nospawn"]), replay="model")]
 C["C17"]["harnesses"] += [WS3]
 C["C09"]["assumptions"] = [a for a in C["C09"]["assumptions"] if "web-seed ranges are not exercised" not in a] + ["web-seed download goroutine not run: its results (piece finished / request failed) are events, produced exactly as urldownloader.Run's completePiece does"]
+
+SWE = H("ZZSectionWriteError", "internal/filesection", "a piece of 1..3 data sections (1..3 bytes each) written to in-memory files of which an arbitrary one rejects the write: Write reports an error (a piece is never reported written when a section is not on disk) and writes nothing after the failing section", T(40, 600), T(40, 600))
+C["C05"]["harnesses"] += [SWE]
+C["C01"]["harnesses"] += [SWE]
+C["C19"]["harnesses"] += [h for h in C["C13"]["harnesses"] if h["fn"] == "ZZMetadataAdopt"]
+C["C19"]["assumptions"] += ["magnet metadata adoption: info dictionary parser replaced by parses-or-not with an arbitrary private flag"]
 
 for pid, spec in C.items():
     spec = dict(property=pid, **spec)
